@@ -95,16 +95,16 @@ def run(p: Program, rep: Report, tier: str) -> None:
     rep.require_instances("R15.1", 13)
 
     # ---------------------------------------------------------------- R15.6 what counts as "non-file field data"
-    from .mp_common import file_field_decision, parseparam_quote_parity
+    from .mp_common import file_field_decision, parse_header_keeps_parameters, parseparam_quote_parity
 
-    for kind, fn_, node, cons, msg, facts in file_field_decision(p, rep) + parseparam_quote_parity(p, rep):
+    for kind, fn_, node, cons, msg, facts in file_field_decision(p, rep) + parseparam_quote_parity(p, rep) + parse_header_keeps_parameters(p, rep):
         if kind == "ok":
             rep.ok("R15.6", msg)
         elif kind == "undecided":
             rep.undecide("R15.6", msg)
         else:
             rep.violation("R15.6", construct(fn_, text=cons), where(fn_, node), msg, path_facts=facts)
-    rep.require_instances("R15.6", 3)
+    rep.require_instances("R15.6", 4)
 
     # ---------------------------------------------------------------- R15.4 bounded hold-back
     dec = p.cls("baize.multipart:MultipartDecoder")
